@@ -851,9 +851,11 @@ def _r6_fold(L, repo):
         for kw in ({"name": "X", "child_idx": 2}, {"child_idx": 1}):
             rows.append(("append_child_trx", kw, run(act, kw),
                          ([((Opaque("BIND"), R, P), dict(kw, pwr_meas=Opaque("PM")))], sorted([("global", (Opaque("TRX1"),)), ("parent", (Opaque("TRX1"),))]), None)))
-        kw = {"name": "Y", "child_idx": 0}
-        rows.append(("append_child_trx", kw, run(act, kw),
-                     ([((Opaque("BIND"), R, P), dict(kw, clck_gen=Opaque("CLCK"), pwr_meas=Opaque("PM")))], [("global", (Opaque("TRX1"),))], None)))
+        if not L.extra.get("c12_init_folded"):
+            # (who turns index 0 into a parent - the helper or its caller - is decided end to end by the start-up fold)
+            kw = {"name": "Y", "child_idx": 0}
+            rows.append(("append_child_trx", kw, run(act, kw),
+                         ([((Opaque("BIND"), R, P), dict(kw, clck_gen=Opaque("CLCK"), pwr_meas=Opaque("PM")))], [("global", (Opaque("TRX1"),))], None)))
         kw = {"child_idx": 3}
         rows.append(("append_child_trx (no parent)", kw, run(act, kw, parent_found=False), ([], [], "IndexError")))
     except Unknown:
@@ -876,9 +878,95 @@ def _r6_fold(L, repo):
     return True
 
 
-def r6_wiring(L, repo):
+def _r6_init_fold(L, repo):
+    """Application.__init__ folded END TO END for witness command lines (no --trx; a --trx definition with child index 0;
+    with child index 2; a child whose parent does not exist): the FakeTRX constructor, the lists, the clock generator, the
+    power meter and the forwarder are recording oracles.  Required: BTS and MS are created as clock-owning parents (the MS
+    with child_mgt=False), a definition with index 0 creates another clock-owning parent, one with index k > 0 a child
+    with that index, without clock, registered globally and with the parent found by (address, port); a missing parent
+    raises.  However the work is split between __init__, append_trx and append_child_trx.  -> False: does not fold"""
+    from consteval import Ev, Unknown, Raised, Opaque
     FF = rel("fake_trx")
-    L.unit(FF)
+    ci, init = repo.need_method("fake_trx", "Application", "__init__")
+    A, P = Opaque("ADDR"), 6700
+    rows = []
+
+    def run(trx_defs, parent_found=True):
+        made, adds = [], []
+
+        def mk(a, k):
+            made.append((tuple(a), dict(k)))
+            return Opaque("TRX%d" % len(made))
+        mk.wants_kw = True
+        argv = {"sched_rr_prio": None, "bts_addr": Opaque("BTS_ADDR"), "bts_base_port": 5700, "bb_addr": Opaque("BB_ADDR"), "bb_base_port": 6700,
+                "trx_bind_addr": Opaque("BIND"), "trx_list": trx_defs}
+        e = Ev(repo, ci.mod, env={}, self_cls=ci)
+        e.ignore_calls = ("log.", "logging.", "signal.", "self.app_print_copyright", "self.app_init_logging")
+
+        def clck(a, k):
+            return {"kind": "CLCK", "links": a[0] if a else None}
+        clck.wants_kw = True
+
+        def opq(name):
+            def h(a, k=None):
+                return Opaque(name)
+            h.wants_kw = True
+            return h
+        e.hooks = {"FakeTRX": mk, "self.parse_argv": lambda a: argv, "CLCKGen": clck, "FakePM": lambda a: {"kind": "PM"},
+                   "TRXList": lambda a: {"kind": "LIST", "trx_list": []}, "BurstForwarder": lambda a: Opaque("FWD"),
+                   "self.trx_list.add_trx": lambda a: adds.append(("global", tuple(a))),
+                   "PARENT.child_trx_list.add_trx": lambda a: adds.append(("parent", tuple(a))),
+                   "self.trx_list.find_trx": lambda a: (Opaque("PARENT") if parent_found and tuple(a) == (A, P) else None)}
+        raised = None
+        try:
+            e.run_block(init.body)
+        except Raised as ex:
+            raised = ex.cls
+        clk = e.env.get("self.clck_gen")
+        pm = e.env.get("self.fake_pm")
+        out = []
+        for a, k in made:
+            k = dict(k)
+            k["clck_gen"] = "the shared clock" if k.get("clck_gen") is clk and clk is not None else ("none" if "clck_gen" not in k else "another object")
+            k["pwr_meas"] = "the power meter" if k.get("pwr_meas") is pm and pm is not None else ("none" if "pwr_meas" not in k else "another object")
+            out.append((a, k))
+        return out, sorted(adds, key=repr), raised
+    B = (Opaque("BIND"),)
+    bts = (B + (Opaque("BTS_ADDR"), 5700), {"name": "BTS", "clck_gen": "the shared clock", "pwr_meas": "the power meter"})
+    ms = (B + (Opaque("BB_ADDR"), 6700), {"name": "MS", "child_mgt": False, "clck_gen": "the shared clock", "pwr_meas": "the power meter"})
+    g = lambda n: ("global", (Opaque("TRX%d" % n),))
+    try:
+        rows.append(("no --trx definitions", run(None), ([bts, ms], [g(1), g(2)], None)))
+        rows.append(("--trx definition with child index 0", run([("Y", A, P, 0)]),
+                     ([bts, ms, (B + (A, P), {"name": "Y", "child_idx": 0, "clck_gen": "the shared clock", "pwr_meas": "the power meter"})], [g(1), g(2), g(3)], None)))
+        rows.append(("--trx definition with child index 2", run([("X", A, P, 2)]),
+                     ([bts, ms, (B + (A, P), {"name": "X", "child_idx": 2, "clck_gen": "none", "pwr_meas": "the power meter"})],
+                      sorted([g(1), g(2), g(3), ("parent", (Opaque("TRX3"),))], key=repr), None)))
+        rows.append(("--trx definitions with child indexes 0 and 1", run([("Y", A, P, 0), (None, A, P, 1)]),
+                     ([bts, ms, (B + (A, P), {"name": "Y", "child_idx": 0, "clck_gen": "the shared clock", "pwr_meas": "the power meter"}),
+                       (B + (A, P), {"name": None, "child_idx": 1, "clck_gen": "none", "pwr_meas": "the power meter"})],
+                      sorted([g(1), g(2), g(3), g(4), ("parent", (Opaque("TRX4"),))], key=repr), None)))
+        rows.append(("--trx definition of a child whose parent does not exist", run([("X", A, P, 3)], parent_found=False), ([bts, ms], [g(1), g(2)], "IndexError")))
+    except Unknown:
+        return False
+    dflt = {}
+    for modn, cn in (("transceiver", "Transceiver"), ("fake_trx", "FakeTRX")):
+        cc, ii = repo.need_method(modn, cn, "__init__")
+        for c in calls_in(ii):
+            if canon(c.func) == "kwargs.get" and len(c.args) == 2 and isinstance(c.args[0], ast.Constant) and isinstance(c.args[1], ast.Constant):
+                dflt.setdefault(c.args[0].value, c.args[1].value)
+
+    def norm(made):
+        return [(a, {k: v for k, v in kw_.items() if not (k in dflt and v == dflt[k] and type(v) is type(dflt[k]))}) for a, kw_ in made]
+    L.fn(FF, "Application.__init__")
+    for title, got, want in rows:
+        L.require("C12.R6", FF, "Application.__init__", "application start-up, %s: transceivers constructed (arguments), registrations, outcome" % title,
+                  (norm(want[0]), want[1], want[2]), (norm(got[0]), got[1], got[2]), line=init.lineno)
+    return True
+
+
+def _r6_init_shape(L, repo):
+    FF = rel("fake_trx")
     ci, init = repo.need_method("fake_trx", "Application", "__init__")
     fn = "Application.__init__"
     cfg = CFG(init)
@@ -890,6 +978,20 @@ def r6_wiring(L, repo):
     want = [(("self.argv.bts_addr", "self.argv.bts_base_port"), {"name": "'BTS'"}, []),
             (("self.argv.bb_addr", "self.argv.bb_base_port"), {"name": "'MS'", "child_mgt": "False"}, [])]
     L.require("C12.R6", FF, fn, "BTS (managing its children) and MS (child_mgt=False) transceivers are created", want, descs)
+
+
+def r6_wiring(L, repo):
+    FF = rel("fake_trx")
+    L.unit(FF)
+    ci, init = repo.need_method("fake_trx", "Application", "__init__")
+    fn = "Application.__init__"
+    cfg = CFG(init)
+    init_folded = _r6_init_fold(L, repo)
+    L.extra["c12_init_folded"] = bool(init_folded)
+    if init_folded:
+        L.structural("C12.R6 shape of the BTS / MS creation in Application.__init__", _r6_init_shape, L, repo)
+    else:
+        _r6_init_shape(L, repo)
     st = {canon(n.targets[0]): canon(n.value) for n in ast.walk(init) if isinstance(n, ast.Assign)}
     L.require("C12.R6", FF, fn, "shared clock calls the application's tick handler", "self.clck_handler",
               st.get("self.clck_gen.clck_handler"))
